@@ -267,6 +267,9 @@ func init() {
 			return out
 		},
 
+		"internal/stringslite.Clone": func(m *Machine, _ *frame, _ *ssa.Function, a []Value) Value { return a[0] },
+		"strings.Clone":               func(m *Machine, _ *frame, _ *ssa.Function, a []Value) Value { return a[0] },
+
 		// ---- errors ----
 		"errors.Is": func(m *Machine, caller *frame, _ *ssa.Function, a []Value) Value { return m.errorsIs(caller, a[0], a[1]) },
 		"errors.As": func(m *Machine, caller *frame, _ *ssa.Function, a []Value) Value { return m.errorsAs(caller, a[0], a[1]) },
